@@ -11,6 +11,7 @@
 //	minters          the approvedMinters table with the contract whose ADDRESS constant equals each entry;
 //	txnWrites        every assignment to a field of transaction.Transaction outside the engine packages;
 //	txnMakes         every construction of a transaction.Transaction in a contract package;
+//	transferWrites   every assignment to a field of an already built state.Transfer / SignedTransfer (must be none);
 //	validateCalls    where the engine (chain.updateState) calls StateContext.Validate relative to the contract run.
 //
 // Source classes: txnSender (X.ClientID of the executing transaction) · contractAddress (X.ToClientID of the executing
@@ -1494,6 +1495,7 @@ var (
 	txnWrites     []fact // pkg, fn, field
 	txnMakes      []fact // pkg, fn
 	validateCalls []fact // fn, "before-exec"|"after-exec"|"no-exec"
+	transferWrites []fact // pkg, fn, field: assignment to a field of an existing state.Transfer / SignedTransfer
 )
 
 func pkgClass(ctx *fctx) string {
@@ -1577,6 +1579,9 @@ func scan() {
 						case *ast.AssignStmt:
 							for _, l := range x.Lhs {
 								if se, ok := l.(*ast.SelectorExpr); ok {
+									if t := info.TypeOf(se.X); t != nil && (namedIs(t, pState, "Transfer") || namedIs(t, pState, "SignedTransfer")) && !toolOnly(ctx, 0) && ctx.rel() != "chaincore/state" {
+										transferWrites = append(transferWrites, fact{a: ctx.rel(), b: ctx.name(), c: se.Sel.Name})
+									}
 									if t := info.TypeOf(se.X); t != nil && namedIs(t, pTxn, "Transaction") {
 										if sel := info.Selections[se]; sel != nil && sel.Kind() == types.FieldVal {
 											if c := pkgClass(ctx); c == "contract" {
@@ -1829,7 +1834,7 @@ func main() {
 		}
 		return u
 	}
-	clientWrites, scIds, txnWrites, txnMakes, validateCalls = sortFacts(clientWrites), sortFacts(scIds), sortFacts(txnWrites), sortFacts(txnMakes), sortFacts(validateCalls)
+	clientWrites, scIds, txnWrites, txnMakes, validateCalls, transferWrites = sortFacts(clientWrites), sortFacts(scIds), sortFacts(txnWrites), sortFacts(txnMakes), sortFacts(validateCalls), sortFacts(transferWrites)
 
 	var b strings.Builder
 	b.WriteString("import ZChain.Model.TransferSites\n")
@@ -1863,6 +1868,7 @@ func main() {
 	wf("txnWrites", "(String × String × String)", txnWrites, 3)
 	wf("txnMakes", "(String × String)", txnMakes, 2)
 	wf("validateCalls", "(String × String)", validateCalls, 2)
+	wf("transferWrites", "(String × String × String)", transferWrites, 3)
 	b.WriteString("end ZChain.Generated.C04\n")
 	if err := os.WriteFile(os.Args[2], []byte(b.String()), 0o644); err != nil {
 		die(token.NoPos, "%v", err)
